@@ -435,7 +435,7 @@ def runPath (ws : List String) : String :=
   match ws with
   | ["unvendor", p] => "=" ++ unvendor (unEq p)
   | ["iswire", p] => b2s (isWireImport (unEq p))
-  | ["importable", p, f] => b2s (importableFrom (unEq p) (unEq f))
+  | ["importable", p, f] => b2s (importableFromTool (unEq p) (unEq f))
   | "frame" :: rest =>
     let rec mk : List String → List ImportEnt
       | a :: b :: c :: t => { path := unEq a, name := unEq b, differs := c == "1" } :: mk t
